@@ -3,6 +3,10 @@ package main
 var watchFaults = []string{"watch-connect-error", "watch-close-mid", "watch-close-after-burst", "watch-close-idle", "watch-status-frame", "watch-bookmark"}
 
 var props = map[string]propCfg{
+	"C01": {Title: "cache content is the accepted newest-version view", QuickRuns: 60000, ThoroughRuns: 6000000, QuickSec: 40, ThoroughSec: 900,
+		Technique: "deterministic simulation of the cache actor: seeded operation sequences + one-step alphabet sweep, reference-model refinement, panic/wedge detection"},
+	"C02": {Title: "events are an exact minimal well-formed delta", QuickRuns: 60000, ThoroughRuns: 6000000, QuickSec: 40, ThoroughSec: 900,
+		Technique: "deterministic simulation of the cache actor: strict event replay between consecutive contents, event multiset vs reference delta"},
 	"C03": {Title: "controller converges at every relist", QuickRuns: 6000, ThoroughRuns: 600000, QuickSec: 40, ThoroughSec: 900,
 		Technique: "deterministic simulation: seeded schedules + API-server fault injection, convergence/mirror/protocol oracles",
 		Faults:    append([]string{"watch-drop", "watch-dup", "watch-replay", "watch-badobj", "watch-connect-hang", "watch-connect-delay"}, watchFaults...)},
